@@ -151,7 +151,7 @@ def model_compare(ck, terms, tag, fn='acheck', shard=6):
 def run(tier):
   ck = Check('C06', tier)
   ck.prove('props/C06.v', gen_targets=[], extra=['harness/RunTBR.vo'])
-  n = 150 if tier == 'quick' else 3000
+  n = common.sz(tier, 150, 3000)
   res = common.pmap(_one, [ck.seed * 100003 + 6 * 1009 + i for i in range(n)], chunksize=4)
   terms, owners, known = [], [], 0
   for spec, out in res:
